@@ -80,6 +80,7 @@ func TestC11FanOut(t *testing.T) {
 	rec := evid.New(t, "C11", "2..5 channels on custom transports, 1..4 producer goroutines each running a generated program of WriteMessage/WriteFrame x All/To/Except with items tagged (producer, counter), targets including a closed channel, a channel of another node and nil; flow control keeps every channel's backlog below the 64-item queue; incoming traffic and a paced consumer run concurrently; per channel every transport write must be exactly one whole frame, each addressed item appears exactly once, nothing else appears, per (producer, channel) order is submission order, forwarded frames keep their header, originated messages carry the node's ids and the link's own gapless sequence; non-trivial = >=2 producers on >=3 channels with at least one Except and one To; distinct by hash of the programs")
 	rec.Require("2+producers-3+channels-to-except", "closed-target", "foreign-target", "v1", "v2", "signed", "after-overflow-and-recovery", "unencodable-item-between-valid-ones")
 	evid.Check(t, rec, evid.N(300, 800), func(t *rapid.T) {
+		drawNodeInit(t)
 		w := &c11World{}
 		w.nch = rapid.IntRange(2, 5).Draw(t, "nch")
 		w.v2 = rapid.Bool().Draw(t, "v2")
@@ -201,7 +202,7 @@ func runC11(w *c11World) error {
 	if w.v2 {
 		n.OutVersion = gomavlib.V2
 	}
-	if err := n.Initialize(); err != nil {
+	if err := initNode(&n); err != nil {
 		return fmt.Errorf("BROKEN: node init: %v", err)
 	}
 	rec := sim.StartRecorder(n, w.pacing, nil)
@@ -597,6 +598,7 @@ func TestC11SingleWriterPerTransport(t *testing.T) {
 	rec := evid.New(t, "C11", "2..3 slow custom transports (each Write stays in progress 50-400us) under a steady load of WriteMessageAll/WriteFrameAll while read errors are injected at generated moments so that channels are replaced on the same transport; oracle: no Write call ever begins while another one is in progress on the same transport (frames would interleave on a byte stream), every completed write is exactly one whole frame; non-trivial = at least one channel was replaced while writes were in flight; distinct by hash of the parameters")
 	rec.Require("channel-replaced-under-load")
 	evid.Check(t, rec, evid.N(40, 200), func(t *rapid.T) {
+		drawNodeInit(t)
 		nch := rapid.IntRange(2, 3).Draw(t, "nch")
 		delay := time.Duration(rapid.IntRange(50, 400).Draw(t, "write_delay_us")) * time.Microsecond
 		flaps := rapid.IntRange(1, 5).Draw(t, "flaps")
@@ -610,7 +612,7 @@ func TestC11SingleWriterPerTransport(t *testing.T) {
 			endpoints = append(endpoints, gomavlib.EndpointCustom{ReadWriteCloser: pipes[i]})
 		}
 		n := &gomavlib.Node{Endpoints: endpoints, Dialect: ardupilotmega.Dialect, OutVersion: gomavlib.V2, OutSystemID: nodeSys, HeartbeatDisable: true}
-		if err := n.Initialize(); err != nil {
+		if err := initNode(&n); err != nil {
 			t.Fatalf("BROKEN: %v", err)
 		}
 		r := sim.StartRecorder(n, sim.Pacing{Kind: "fast"}, nil)
